@@ -245,3 +245,19 @@ func RunReplay(f func()) (pruned bool) {
 	f()
 	return false
 }
+
+// IteByte is c ? a : b without branching (a term in the engine).
+func IteByte(c bool, a, b byte) byte {
+	if c {
+		return a
+	}
+	return b
+}
+
+// IteInt64 is c ? a : b without branching.
+func IteInt64(c bool, a, b int64) int64 {
+	if c {
+		return a
+	}
+	return b
+}
